@@ -1,1 +1,2 @@
 import ThermoVerif.Model.Network
+import ThermoVerif.Props.C18
